@@ -450,6 +450,10 @@ def run_history(ops, initial=(), parallel=False, via_composite=False):
     watch = any(b == 'agents' and k == 'a' for b, k, _t, _x in initial)
     processes = {'director': director, 'observer': Observer({'watch': watch})}
     dtopo = {'agents': ('agents',), 'pool': ('pool',), 'leaves': ('leaves',), 'root': ()}
+    if ops and ops[0].get('gdict'):
+        # the same wiring written as glob dictionaries
+        dtopo['agents'] = {'_path': ('agents',), '*': {}}
+        dtopo['pool'] = {'_path': ('pool',), '*': {}}
     topology = {'director': dict(dtopo),
                 'observer': {'ag': ('agents',), 'g': ('glob',), 'out': ('outs',)},
                 'zdirector': dict(dtopo),
